@@ -1,7 +1,7 @@
 (** C08_micro. put_or_update behind the flag check is Window.v's first half
     This file only pins statements: every theorem restates a lemma of proofs/ verbatim and is closed by it. *)
 From CacheD Require Import Base Sketch Model Window Micro.
-From CacheD.proofs Require Import Defs ApiProofs HistoryProofs.
+From CacheD.proofs Require Import Defs ApiProofs HistoryProofs StatsProofs.
 From CacheD.proofs Require Import MicroProofs.
 
 Theorem C08_mupsert_enter_is_half1 :
